@@ -421,6 +421,7 @@ func tuneProfile(p *Plan, r *Rng, thorough bool) {
 		w["read"] = 8
 		w["res"] = 5
 		w["qopen"], w["qnext"], w["qclose"] = 5, 8, 8
+		w["dump"] = 1 // removed handles offered to worlds loaded from a dump
 		p.FullEvery = 1
 	case "C11":
 		p.Listener = "all"
